@@ -94,22 +94,25 @@ partial def valueOfJson (j : PJson) (w : World) : Option (Value × World) :=
       pure (.obj r, w2)
   | _ => none
 
-partial def valueToJson (w : World) (fuel : Nat) (v : Value) : PJson :=
-  match fuel with
-  | 0 => .str "<cycle>"
-  | fuel+1 =>
-    match v with
-    | .null => .null
-    | .bool b => .bool b
-    | .num q => mk [("n", ratToJson q)]
-    | .str s => .str s
-    | .dt ms => mk [("d", .num ms)]
-    | .arr r => .arr (((w.arr? r).getD []).map (valueToJson w fuel))
-    | .obj r => mk [("o", .arr ((sortKeys ((w.obj? r).getD [])).map fun kv => .arr [.str kv.1, valueToJson w fuel kv.2]))]
-    | .fn (.script _) => mk [("f", .str "script")]
-    | .fn (.lib n) => mk [("f", .str n)]
-    | .fn (.other _) => mk [("f", .str "other")]
-    | .regex _ => mk [("r", .null)]
+/-- canonical rendering; a container re-entered on the current path renders as "<cycle>" (as the harness does) -/
+partial def valueToJsonP (w : World) (path : List Nat) (v : Value) : PJson :=
+  match v with
+  | .null => .null
+  | .bool b => .bool b
+  | .num q => mk [("n", ratToJson q)]
+  | .str s => .str s
+  | .dt ms => mk [("d", .num ms)]
+  | .arr r =>
+      if path.contains r then .str "<cycle>" else .arr (((w.arr? r).getD []).map (valueToJsonP w (r :: path)))
+  | .obj r =>
+      if path.contains r then .str "<cycle>" else
+      mk [("o", .arr ((sortKeys ((w.obj? r).getD [])).map fun kv => .arr [.str kv.1, valueToJsonP w (r :: path) kv.2]))]
+  | .fn (.script _) => mk [("f", .str "script")]
+  | .fn (.lib n) => mk [("f", .str n)]
+  | .fn (.other _) => mk [("f", .str "other")]
+  | .regex _ => mk [("r", .null)]
+
+def valueToJson (w : World) (_fuel : Nat) (v : Value) : PJson := valueToJsonP w [] v
 
 def errToJson : RtErr → PJson
   | .unknownLabel l => mk [("error", .str ("Unknown jump label \"" ++ l.render ++ "\""))]
